@@ -449,6 +449,117 @@ def faulty_device_query_fail():
     return None
 
 
+def default_history_fail():
+    """Which backend a Backend() / set_backend() without a name selects depends on MIDO_BACKEND and the documented default only
+    — not on which backends were selected earlier in the process."""
+    import importlib
+    import mido
+    from mido.backends import backend as bmod
+    from mido.backends.backend import Backend
+    saved = {n: getattr(mido, n) for n in dir(mido) if n.split('_')[0] in ('open', 'get')}
+    saved_backend = mido.backend
+    saved_default = bmod.DEFAULT_BACKEND
+    saved_env = os.environ.get('MIDO_BACKEND')
+    real_import = importlib.import_module
+    log = []
+    fake = make_module('fk', True, True, log)
+    importlib.import_module = lambda name, package=None: fake if name == 'fk' else real_import(name, package)
+
+    def probe(where):
+        os.environ.pop('MIDO_BACKEND', None)
+        for kw, api in (({}, None), ({'api': 'X'}, 'X'), ({'use_environ': False}, None)):
+            b = Backend(**kw)
+            if b.name != 'mido.backends.rtmidi' or (b.api or None) != api:
+                return (f'{where}, with MIDO_BACKEND unset, Backend({", ".join("%s=%r" % i for i in kw.items())}) selects '
+                        f'{b.name!r} with api {b.api!r}; the default is mido.backends.rtmidi with api {api!r}')
+        mido.set_backend()
+        if mido.backend.name != 'mido.backends.rtmidi' or mido.backend.api or mido.open_input.__self__ is not mido.backend:
+            return (f'{where}, with MIDO_BACKEND unset, set_backend() selects {mido.backend.name!r} with api '
+                    f'{mido.backend.api!r}; the default is mido.backends.rtmidi')
+        os.environ['MIDO_BACKEND'] = 'fk/JACK'
+        b = Backend()
+        if (b.name, b.api) != ('fk', 'JACK'):
+            return f'{where}, with MIDO_BACKEND=fk/JACK, Backend() selects {b.name!r} with api {b.api!r}'
+        os.environ.pop('MIDO_BACKEND', None)
+        return None
+    try:
+        f = probe('in a process that selected nothing yet')
+        if f:
+            return f
+        mido.set_backend('fk/ALSA')
+        f = probe('after set_backend("fk/ALSA")')
+        if f:
+            return f
+        mido.set_backend('fk/ALSA')
+        mido.open_input('x')
+        mido.set_backend(Backend('fk', api='PULSE', load=True))
+        f = probe('after set_backend("fk/ALSA"), a use, and set_backend(Backend("fk", api="PULSE", load=True))')
+        if f:
+            return f
+        os.environ['MIDO_BACKEND'] = 'fk/JACK'
+        mido.set_backend()
+        mido.get_input_names()
+        f = probe('after set_backend() under MIDO_BACKEND=fk/JACK and a use')
+        if f:
+            return f
+        return None
+    finally:
+        importlib.import_module = real_import
+        bmod.DEFAULT_BACKEND = saved_default
+        if saved_env is None:
+            os.environ.pop('MIDO_BACKEND', None)
+        else:
+            os.environ['MIDO_BACKEND'] = saved_env
+        for n, fn in saved.items():
+            setattr(mido, n, fn)
+        mido.backend = saved_backend
+
+
+def module_shapes_fail():
+    """Backend modules of every documented shape (custom backends define only the classes they support): the name listings
+    derive from get_devices (with the API) whichever port classes the module has; open_ioport uses the native IOPort when there
+    is one."""
+    import importlib
+    from mido.backends.backend import Backend
+    real_import = importlib.import_module
+    ins = [n for n, i, o in DEVICES if i]
+    outs = [n for n, i, o in DEVICES if o]
+    want = {'get_input_names': ins, 'get_output_names': outs, 'get_ioport_names': [n for n in ins if n in outs]}
+    try:
+        for drop in (('Input', 'Output'), ('Input',), ('Output',), ('Input', 'Output', 'IOPort'), ('IOPort',)):
+            for bname, api in (('fk/ALSA', 'ALSA'), ('fk', None)):
+                log = []
+                fake = make_module('fk', True, True, log)
+                for d in drop:
+                    delattr(fake, d)
+                importlib.import_module = lambda name, package=None, fake=fake: fake if name == 'fk' else real_import(name, package)
+                b = Backend(bname)
+                shape = 'a module with get_devices and ' + (', '.join(c for c in ('Input', 'Output', 'IOPort') if c not in drop) or 'no port class')
+                for fn in ('get_input_names', 'get_output_names', 'get_ioport_names'):
+                    del log[:]
+                    try:
+                        got = getattr(b, fn)()
+                    except Exception as e:      # noqa: BLE001
+                        return f'{shape}: {fn}() raised {type(e).__name__}: {e}'
+                    if got != want[fn]:
+                        return f'{shape}: {fn}() = {got}, the device list gives {want[fn]}'
+                    if log != ['devices:%s' % tok(api)]:
+                        return f'{shape} selected as {bname!r}: {fn}() recorded {log}, expected one device query with api {api!r}'
+                if 'IOPort' not in drop:
+                    del log[:]
+                    b.open_ioport('p')
+                    if log != ['ctor:IOPort:p:%s' % tok(api)]:
+                        return f'{shape}: open_ioport("p") recorded {log}, expected the native IOPort'
+                if 'Input' not in drop:
+                    del log[:]
+                    b.open_input('q')
+                    if log != ['ctor:Input:q:%s' % tok(api)]:
+                        return f'{shape}: open_input("q") recorded {log}'
+        return None
+    finally:
+        importlib.import_module = real_import
+
+
 def run(ck):
     ck.prepare_lean()
     ck.run_corpus(oracle)
@@ -483,6 +594,12 @@ def run(ck):
     ck.count('faulty_device_queries')
     if f:
         ck.oracle_fail({'faulty_device_query': True}, f)
+    for key, fn in (('default_history', default_history_fail), ('module_shapes', module_shapes_fail)):
+        f = fn()
+        ck.evaluations += 1
+        ck.count(key)
+        if f:
+            ck.oracle_fail({key: True}, f)
     return ck.finish(RULE, assumptions=['MIDO_BACKEND is read regardless of use_environ (the property does not say otherwise)',
                                         'set_backend is checked on the real mido module and restored (correspondence-only)'])
 
@@ -490,6 +607,10 @@ def run(ck):
 def oracle(case):
     if isinstance(case, dict) and case.get('faulty_device_query'):
         return faulty_device_query_fail()
+    if isinstance(case, dict) and case.get('default_history'):
+        return default_history_fail()
+    if isinstance(case, dict) and case.get('module_shapes'):
+        return module_shapes_fail()
     if 'backend_copies' in case:
         return copies_fail()
     if 'set_backend' in case:
